@@ -91,7 +91,7 @@ def handleAnd (j : Json) : Except String Verdict := do
   let dflt := fIntD j "dflt" 0
   let groups ← (← fArr j "groups").mapM (fun g => do (← asList g).mapM (parseFiberIn dflt))
   let fs := groups.flatten
-  if !(fs.all (FiberIn.shapeOk n)) || n == 0 || !(groups.all ascPre) || fs.isEmpty then
+  if !(fs.all (FiberIn.shapeOk n)) || n == 0 || !(groups.all ascPre) then
     return { agree := true, spec := true, tags := ["OUT_OF_MODEL"] }
   let impl ← field j "impl"
   let ib ← (← fArr impl "batches").mapM (fun b => do
@@ -135,7 +135,7 @@ def handleLf (j : Json) : Except String Verdict := do
   let dflt := fIntD j "dflt" 0
   let groups ← (← fArr j "groups").mapM (fun g => do (← asList g).mapM (parseFiberIn dflt))
   let fs := groups.flatten
-  if !(fs.all (FiberIn.shapeOk n)) || n == 0 || fs.isEmpty then
+  if !(fs.all (FiberIn.shapeOk n)) || n == 0 then
     return { agree := true, spec := true, tags := ["OUT_OF_MODEL"] }
   let impl ← field j "impl"
   let ib ← (← fArr impl "batches").mapM parseTrace
